@@ -511,7 +511,10 @@ class ReferenceList(BaseColumnType):
     elif isinstance(value, list) and all(
          isinstance(rset, RecordSet) and rset._table.table_id == self.table_id for rset in value
       ):
-      row_ids_flat_list = [rec.id for rset in value for rec in rset]
+      # Use the row ids the RecordSets hold. (Reading `rec.id` here would go through records that carry
+      # the bare ReferenceRelation of their column, and record a dependency on the `id` column with a
+      # relation that does not lead back to the cell being computed.)
+      row_ids_flat_list = [row_id for rset in value for row_id in rset._row_ids]
       row_ids_unique_list = list(OrderedDict((el, None) for el in row_ids_flat_list).keys())
       return row_ids_unique_list
 
